@@ -156,3 +156,15 @@ impl actix::Handler<VerifConfigSeq> for crate::config::core::ConfigActor {
         }
     }
 }
+
+/// (index_interval, data_area_index) of newly created raft log files: `RNACOS_VERIF_LOG_GEOMETRY=<interval>,<area>`,
+/// default 128,4096 (the values of the unhooked build). Existing files keep the geometry in their header.
+pub fn log_geometry() -> (u16, u16) {
+    if let Ok(v) = std::env::var("RNACOS_VERIF_LOG_GEOMETRY") {
+        let p: Vec<u16> = v.split(',').filter_map(|x| x.trim().parse().ok()).collect();
+        if p.len() == 2 && p[0] > 0 && p[1] >= 64 && p[1] <= 4096 {
+            return (p[0], p[1]);
+        }
+    }
+    (128, 4096)
+}
